@@ -519,7 +519,20 @@ func c11One(c *Ctx, r *gen.R, idx int) {
 				if k%2 == 0 {
 					b.WriteString("  # trailing comment")
 				}
-				b.WriteString("\n")
+				if k%5 == 4 {
+					b.WriteString("\r\n")
+				} else {
+					b.WriteString("\n")
+				}
+			}
+			// a file need not end with a line terminator
+			for k := range bufs {
+				if (len(order)+oi+k)%3 == 0 && bufs[k].Len() > 0 {
+					bufs[k].Truncate(bufs[k].Len() - 1)
+					if bb := bufs[k].Bytes(); len(bb) > 0 && bb[len(bb)-1] == '\r' {
+						bufs[k].Truncate(len(bb) - 1)
+					}
+				}
 			}
 			for k := range bufs {
 				if err := domainmatcher.LoadMixMatcherFromReader(m, &bufs[k]); err != nil {
